@@ -1727,3 +1727,63 @@ func printNarrowRule(r *Report, p *Prog, rule string, pkgs ...string) int {
 	}
 	return n
 }
+
+// parseErrorUsedRule (C02/PARSE-ERROR-USED): strconv.ParseUint/ParseInt report
+// a number that does not fit with an error and return the LARGEST value of the
+// size; a caller that discards the error turns every such number into that one
+// value, so two different large numbers compare equal (PEP 440 numbers and
+// local segments have no upper bound; 20-digit build stamps exist). The error
+// result of every such call in package semver is used.
+func parseErrorUsedRule(r *Report, p *Prog, rule string, pkgs ...string) int {
+	n := 0
+	for _, f := range p.Funcs {
+		if f.Pkg == nil || f.Blocks == nil || f.Synthetic != "" {
+			continue
+		}
+		in := false
+		for _, pk := range pkgs {
+			if f.Pkg.Pkg.Path() == modPrefix+pk {
+				in = true
+			}
+		}
+		if !in {
+			continue
+		}
+		per := map[string]int{}
+		for _, b := range f.Blocks {
+			for _, ins := range b.Instrs {
+				call, ok := ins.(*ssa.Call)
+				if !ok {
+					continue
+				}
+				name := staticCalleeName(call)
+				if name != "strconv.ParseUint" && name != "strconv.ParseInt" && name != "strconv.Atoi" {
+					continue
+				}
+				n++
+				per[name]++
+				key := fmt.Sprintf("%s: the error of %s #%d is used", fnKey(f), name, per[name])
+				used := false
+				if refs := call.Referrers(); refs != nil {
+					for _, rf := range *refs {
+						ex, ok := rf.(*ssa.Extract)
+						if !ok || ex.Index != 1 || ex.Referrers() == nil {
+							continue
+						}
+						for _, u := range *ex.Referrers() {
+							if _, isDbg := u.(*ssa.DebugRef); !isDbg {
+								used = true
+							}
+						}
+					}
+				}
+				if used {
+					r.ok(rule, key, p.pos(call.Pos()), "the error result is tested or returned")
+				} else {
+					r.bad(rule, key, p.pos(call.Pos()), "the error is discarded: for a number that does not fit, "+name+" returns the largest value of the size together with the error, so every such number becomes that one value and two different large numbers compare equal")
+				}
+			}
+		}
+	}
+	return n
+}
